@@ -57,6 +57,8 @@ Digit(i, p, ds, W) == ((i-1) \div W[p]) % ds[p]
 UPos(k) == 2*k
 PPos(k) == 2*k - 1
 
+SumOver(n, F(_)) == LET s[k \in 0..n] == IF k = 0 THEN 0 ELSE F(k) + s[k-1] IN s[n]
+
 DontCare   == -1
 DontChange == -2
 
@@ -153,5 +155,240 @@ TruncDiv(a, b) ==  \* C++ integer division (truncation toward zero), b # 0
 CRem(a, b) == a - b * TruncDiv(a, b)    \* C++ %, sign of the dividend
 
 Bad(x) == x = OffGrid
+
+\* error markers produced by scalar operators (all above OffGrid)
+EDivZero == 1073741826
+ESubInf  == 1073741827
+EInfInf  == 1073741828
+IsErrV(x) == x >= EDivZero
+ErrName(x) == CASE x = EDivZero -> "DIVIDE_BY_ZERO"
+                [] x = ESubInf  -> "SUBTRACT_INFINITY"
+                [] x = EInfInf  -> "INFINITY_DIV_INFINITY"
+                [] OTHER        -> "?"
+
+\* integers must stay where TLC (32 bit) and the trace encoding are exact
+IntBound  == 536870912      \* 2^29
+RealBound == 16777216       \* 2^24: k/64 with |k| < 2^24 is an exact float
+Guard(x, real) ==
+    IF real THEN (IF Abs(x) < RealBound THEN x ELSE OffGrid)
+            ELSE (IF Abs(x) < IntBound THEN x ELSE OffGrid)
+
+\* product without 32-bit overflow inside TLC
+SafeMul(a, b) ==
+    IF a = 0 \/ b = 0 THEN 0
+    ELSE IF Abs(a) > (IntBound \div Abs(b)) THEN OffGrid
+    ELSE a * b
+
+(***************************************************************************)
+(* Scalar binary operations.  cls is the value class of the forests:       *)
+(*   "I"  multi-terminal integer        "R"  multi-terminal real (1/64)    *)
+(*   "P"  EV+ integer with +infinity    "T"  EV* real (1/64)               *)
+(***************************************************************************)
+IsReal(cls) == cls \in {"R", "T"}
+
+ScPlus(cls, a, b) ==
+    IF cls = "P" /\ (a = Inf \/ b = Inf) THEN Inf ELSE Guard(a + b, IsReal(cls))
+
+ScMinus(cls, a, b) ==
+    IF cls = "P" /\ b = Inf THEN ESubInf
+    ELSE IF cls = "P" /\ a = Inf THEN Inf
+    ELSE Guard(a - b, IsReal(cls))
+
+ScMult(cls, a, b) ==
+    IF cls = "P" /\ (a = Inf \/ b = Inf)
+    THEN (IF a = 0 \/ b = 0 THEN OffGrid ELSE Inf)     \* 0 * infinity: not documented
+    ELSE IF IsReal(cls)
+         THEN LET p == SafeMul(a, b)
+              IN IF p = OffGrid THEN OffGrid
+                 ELSE IF p % 64 # 0 THEN OffGrid ELSE Guard(TruncDiv(p, 64), TRUE)
+         ELSE LET p == SafeMul(a, b) IN IF p = OffGrid THEN OffGrid ELSE Guard(p, FALSE)
+
+ScDiv(cls, a, b) ==
+    IF cls = "P" /\ b = Inf THEN (IF a = Inf THEN EInfInf ELSE 0)
+    ELSE IF b = 0 THEN EDivZero
+    ELSE IF cls = "P" /\ a = Inf THEN Inf
+    ELSE IF IsReal(cls)
+         THEN LET n == SafeMul(a, 64)
+              IN IF n = OffGrid THEN OffGrid
+                 ELSE IF CRem(n, b) # 0 THEN OffGrid ELSE Guard(TruncDiv(n, b), TRUE)
+         ELSE TruncDiv(a, b)
+
+ScMod(cls, a, b) ==
+    IF cls = "P" /\ b = Inf THEN (IF a = Inf THEN EInfInf ELSE a)
+    ELSE IF b = 0 THEN EDivZero
+    ELSE IF cls = "P" /\ a = Inf THEN Inf
+    ELSE CRem(a, b)
+
+\* negatives stand for "infinite distance"
+ScDistMin(a, b) ==
+    IF (a < 0) = (b < 0) THEN Min2(a, b)
+    ELSE IF a < 0 THEN b ELSE a
+
+ScBin(op, cls, a, b) ==
+    CASE op = "PLUS"     -> ScPlus(cls, a, b)
+      [] op = "MINUS"    -> ScMinus(cls, a, b)
+      [] op = "MULTIPLY" -> ScMult(cls, a, b)
+      [] op = "DIVIDE"   -> ScDiv(cls, a, b)
+      [] op = "MODULO"   -> ScMod(cls, a, b)
+      [] op = "MAXIMUM"  -> Max2(a, b)
+      [] op = "MINIMUM"  -> Min2(a, b)
+      [] op = "DIST_MIN" -> ScDistMin(a, b)
+
+ScCmp(op, a, b) ==
+    CASE op = "EQUAL"              -> a = b
+      [] op = "NOT_EQUAL"          -> a # b
+      [] op = "LESS_THAN"          -> a < b
+      [] op = "LESS_THAN_EQUAL"    -> a <= b
+      [] op = "GREATER_THAN"       -> a > b
+      [] op = "GREATER_THAN_EQUAL" -> a >= b
+
+ArithOps == {"PLUS", "MINUS", "MULTIPLY", "DIVIDE", "MODULO", "MAXIMUM", "MINIMUM", "DIST_MIN"}
+CmpOps   == {"EQUAL", "NOT_EQUAL", "LESS_THAN", "LESS_THAN_EQUAL", "GREATER_THAN", "GREATER_THAN_EQUAL"}
+
+\* pointwise lifting; a point whose operand is OffGrid stays OffGrid
+ArithFn(op, cls, f, g) ==
+    [i \in DOMAIN f |-> IF Bad(f[i]) \/ Bad(g[i]) THEN OffGrid ELSE ScBin(op, cls, f[i], g[i])]
+
+\* one is the value "true" takes in the result forest (1, or 64 for reals)
+CmpFn(op, f, g, one) ==
+    [i \in DOMAIN f |-> IF Bad(f[i]) \/ Bad(g[i]) THEN OffGrid
+                        ELSE IF ScCmp(op, f[i], g[i]) THEN one ELSE 0]
+
+ErrsOf(fn) == {ErrName(fn[i]) : i \in {j \in DOMAIN fn : IsErrV(fn[j])}}
+
+(* Unary maps *)
+DistIncFn(f) == [i \in DOMAIN f |-> IF Bad(f[i]) THEN OffGrid
+                                    ELSE IF f[i] >= 0 THEN Guard(f[i] + 1, FALSE) ELSE f[i]]
+
+\* user-defined unary catalogue of the driver (harness/mdrive.cc uu_*);
+\* real: values in units of 1/64; bres: result forest is boolean
+UserSc(id, real, x) ==
+    LET unit == IF real THEN 64 ELSE 1 IN
+    CASE id = "U_ABS"   -> IF x = Inf THEN Inf ELSE Abs(x)
+      [] id = "U_NEG"   -> IF x = Inf THEN Inf ELSE -x
+      [] id = "U_EVEN"  -> IF x = Inf THEN 0 ELSE IF x % (2 * unit) = 0 THEN 1 ELSE 0
+      [] id = "U_INC3"  -> IF x = Inf THEN Inf ELSE Guard(x + 3 * unit, real)
+      [] id = "U_SQ"    -> IF x = Inf THEN Inf ELSE ScMult(IF real THEN "R" ELSE "I", x, x)
+      [] id = "U_ISPOS" -> IF x = Inf THEN 1 ELSE IF x > 0 THEN 1 ELSE 0
+
+UserOps == {"U_ABS", "U_NEG", "U_EVEN", "U_INC3", "U_SQ", "U_ISPOS"}
+UserBoolOps == {"U_EVEN", "U_ISPOS"}
+
+UserFn(id, real, f) == [i \in DOMAIN f |-> IF Bad(f[i]) THEN OffGrid ELSE UserSc(id, real, f[i])]
+
+\* range queries: largest / smallest value taken (none if some point is unknown)
+MaxRange(f) == IF \E i \in DOMAIN f : Bad(f[i]) THEN OffGrid ELSE SetMax({f[i] : i \in DOMAIN f})
+MinRange(f) == IF \E i \in DOMAIN f : Bad(f[i]) THEN OffGrid ELSE SetMin({f[i] : i \in DOMAIN f})
+
+-----------------------------------------------------------------------------
+(* Relations: one-step images, products, reachability (C08, C09, C20) *)
+
+\* boolean post-image: states with an incoming edge from a member of S
+PostImageB(S, R, pairs) ==
+    [y \in DOMAIN S |-> IF \E i \in DOMAIN R : R[i] # 0 /\ pairs[i][2] = y /\ S[pairs[i][1]] # 0 THEN 1 ELSE 0]
+PreImageB(S, R, pairs) ==
+    [x \in DOMAIN S |-> IF \E i \in DOMAIN R : R[i] # 0 /\ pairs[i][1] = x /\ S[pairs[i][2]] # 0 THEN 1 ELSE 0]
+
+\* distance images.  "reached" tells which operand values are distances
+\* (MT: d >= 0; EV+: d # Inf); none is the value for "no such neighbour"
+DistImage(fwd, D, R, pairs, evp) ==
+    LET isd(v) == IF evp THEN v # Inf ELSE v >= 0
+        none   == IF evp THEN Inf ELSE -1
+    IN [y \in DOMAIN D |->
+          LET src == {i \in DOMAIN R : /\ R[i] # 0
+                                       /\ pairs[i][IF fwd THEN 2 ELSE 1] = y
+                                       /\ isd(D[pairs[i][IF fwd THEN 1 ELSE 2]])}
+          IN IF src = {} THEN none
+             ELSE 1 + SetMin({D[pairs[i][IF fwd THEN 1 ELSE 2]] : i \in src})]
+
+\* vector-matrix product  y[j] = SUM_i x[i] * M[i,j]   (fwd)
+\* matrix-vector product  y[i] = SUM_j M[i,j] * x[j]   (~fwd)
+RECURSIVE SumSeq(_, _)
+SumSeq(s, n) == IF n = 0 THEN 0 ELSE
+                LET r == SumSeq(s, n-1) IN IF Bad(r) \/ Bad(s[n]) THEN OffGrid ELSE r + s[n]
+
+VecMat(fwd, x, M, pairs, real) ==
+    [y \in DOMAIN x |->
+        LET idx  == {i \in DOMAIN M : pairs[i][IF fwd THEN 2 ELSE 1] = y}
+            term(i) == LET xv == x[pairs[i][IF fwd THEN 1 ELSE 2]] IN
+                       IF Bad(xv) \/ Bad(M[i]) THEN OffGrid ELSE ScMult(IF real THEN "R" ELSE "I", xv, M[i])
+            RECURSIVE Acc(_)
+            Acc(S) == IF S = {} THEN 0
+                      ELSE LET i == CHOOSE j \in S : TRUE
+                               r == Acc(S \ {i})
+                               t == term(i)
+                           IN IF Bad(r) \/ Bad(t) THEN OffGrid ELSE r + t
+            tot == Acc(idx)
+        IN IF Bad(tot) THEN OffGrid ELSE Guard(tot, real)]
+
+\* least fixed point: states reachable from S in zero or more steps
+RECURSIVE ReachB(_, _, _, _)
+ReachB(fwd, S, R, pairs) ==
+    LET img  == IF fwd THEN PostImageB(S, R, pairs) ELSE PreImageB(S, R, pairs)
+        next == [x \in DOMAIN S |-> IF S[x] # 0 \/ img[x] # 0 THEN 1 ELSE 0]
+    IN IF next = S THEN S ELSE ReachB(fwd, next, R, pairs)
+
+\* shortest distances: D0 gives the initial distances (MT: negative = not
+\* initial; EV+: Inf = not initial)
+RECURSIVE ReachD(_, _, _, _, _)
+ReachD(fwd, D, R, pairs, evp) ==
+    LET img  == DistImage(fwd, D, R, pairs, evp)
+        next == [x \in DOMAIN D |->
+                    IF evp THEN Min2(D[x], img[x]) ELSE ScDistMin(D[x], img[x])]
+    IN IF next = D THEN D ELSE ReachD(fwd, next, R, pairs, evp)
+
+\* negative values all mean "unreachable" in MT distance functions
+NegClass(f) == [i \in DOMAIN f |-> IF f[i] < 0 THEN -1 ELSE f[i]]
+
+-----------------------------------------------------------------------------
+(* Enumeration and counting (C11), index sets (C15) *)
+
+\* does table index i match the iterator mask?  (same conventions as minterms)
+\* the sequence of <<rank (0-based), value>> an iterator must produce
+IterSeq(f, transparent, mask, sizes, rel) ==
+    LET ds == DS(sizes, rel)
+        W  == Weights(ds)
+        K  == Len(sizes)
+        keep(i) == f[i] # transparent /\ (mask = << >> \/ Matches(i, mask, K, rel, ds, W))
+        RECURSIVE Build(_)
+        Build(i) == IF i > Len(f) THEN << >>
+                    ELSE IF keep(i) THEN << <<i-1, f[i]>> >> \o Build(i+1) ELSE Build(i+1)
+    IN Build(1)
+
+CardFn(f, transparent) == Cardinality({i \in DOMAIN f : f[i] # transparent})
+
+\* index set of a boolean set: members numbered in lexicographic order
+IndexSetFn(S) ==
+    [i \in DOMAIN S |-> IF S[i] = 0 THEN Inf
+                        ELSE Cardinality({j \in 1..(i-1) : S[j] # 0})]
+
+\* rank (0-based) of the member with index n, or -1
+ElemOf(ix, n) ==
+    LET M == {i \in DOMAIN ix : ix[i] = n} IN
+    IF n < 0 \/ M = {} THEN -1 ELSE (CHOOSE i \in M : TRUE) - 1
+
+-----------------------------------------------------------------------------
+(* Variable reordering (C13).  l2v[k] = variable now at level k.  A table  *)
+(* is always indexed by *level* positions (the library's minterms are by   *)
+(* level), so after reordering from order o to order n the value at        *)
+(* level-assignment a' is the old value at the assignment a with           *)
+(* a[level of v in o] = a'[level of v in n].                               *)
+(***************************************************************************)
+PermuteFn(f, oldl2v, newl2v, oldsizes, rel) ==
+    LET K     == Len(oldsizes)
+        \* size of each variable
+        vsize == [v \in 1..K |-> oldsizes[CHOOSE k \in 1..K : oldl2v[k] = v]]
+        newsizes == [k \in 1..K |-> vsize[newl2v[k]]]
+        dso == DS(oldsizes, rel)   Wo == Weights(dso)
+        dsn == DS(newsizes, rel)   Wn == Weights(dsn)
+        oldlevel(v) == CHOOSE k \in 1..K : oldl2v[k] = v
+        \* index in the old table of the point that new index i denotes
+        src(i) ==
+            IF rel
+            THEN 1 + SumOver(K, LAMBDA k :
+                        Digit(i, UPos(k), dsn, Wn) * Wo[UPos(oldlevel(newl2v[k]))]
+                      + Digit(i, PPos(k), dsn, Wn) * Wo[PPos(oldlevel(newl2v[k]))])
+            ELSE 1 + SumOver(K, LAMBDA k : Digit(i, k, dsn, Wn) * Wo[oldlevel(newl2v[k])])
+    IN [i \in 1..NPoints(dsn) |-> f[src(i)]]
 
 =============================================================================
